@@ -17,12 +17,23 @@ Definition dec_pair (v : vl) : option (list N * list N) :=
 
 (* op: roll as is | write then roll | (2 name value): the process sets an environment variable
    (the archive names are expanded at every roll, fixed_window.rs:217-227, so later rolls use it) *)
-Inductive cop := ORoll (w : option bytes) | OSetEnv (k v : list N).
+Inductive cop := ORoll (w : option bytes) | OSetEnv (k v : list N)
+                | ORmDir (d : path).   (* somebody else removes a directory (with everything below it) *)
+
+Fixpoint has_prefix (p s : list N) : bool :=
+  match p, s with
+  | [], _ => true
+  | x :: p', y :: s' => (x =? y) && has_prefix p' s'
+  | _ :: _, [] => false
+  end.
+Definition rm_dir (d : path) (f : fs) : fs :=
+  filter (fun pc => negb (has_prefix (d ++ [47]) (fst pc))) f.
 
 Definition dec_op (v : vl) : option cop :=
   match v with
   | VL [VN 0] => Some (ORoll None)
   | VL [VN 2; VS k; VS x] => Some (OSetEnv k x)
+  | VL [VN 3; VS d] => Some (ORmDir d)
   | VL [VN _; VS x] => Some (ORoll (Some x))
   | _ => None
   end.
@@ -40,6 +51,7 @@ Fixpoint run_ops (roller : envt -> path -> fs -> outcome) (env : envt) (file : p
   match ops with
   | [] => Some []
   | OSetEnv k v :: rest => run_ops roller ((k, v) :: env) file rest f    (* the first binding of a name wins *)
+  | ORmDir d :: rest => run_ops roller env file rest (rm_dir d f)
   | ORoll o :: rest =>
     let f1 := match o with Some x => write file x f | None => f end in
     match roller env file f1 with
